@@ -3,6 +3,7 @@ import LoraVerif.Lemmas.ExceptLemmas
 import LoraVerif.Lemmas.RtLemmas
 import LoraVerif.Model.History
 import LoraVerif.Lemmas.MacWFStep
+import LoraVerif.Lemmas.Accept
 /-!
 # C09 — every transmission uses an enabled in-band channel, a legal data rate and power
 
@@ -23,7 +24,9 @@ Composed (on the MAC model, in every well-formed = every reachable state, `Lemma
   radio maximum, ≤ commanded level, ≤ regional EIRP − antenna gain (proving it exposed that the join
   bias overrode the channel mask: repaired in the code, fix 89d4f41; regression example below);
 * `join_legal`: `Mac::join_otaa` ⇒ a join channel with the data rate it mandates, in band, same power limits;
-* `history_tx_legal`: by induction over `run`, every frame of every history satisfies these.
+* `history_tx_legal`: by induction over `run`, every frame of every history satisfies these;
+* `select_accept_nonempty`: in every well-formed plan state the accept sets of the retry loops are
+  non-empty (a draw value exists on which selection returns at once).
 -/
 open Model Gen.Region Gen.Modulation
 
@@ -646,6 +649,18 @@ theorem join_legal {σ} (g : Rng σ) (m m' : MacState) (rs rs' : σ) (out : Join
   rw [hid] at hib hp2
   exact ⟨⟨tx, rfl, hg, hu hup, hleg, hib⟩, hp1, ⟨p0, hp2, hp3⟩⟩
 
+/-- **channel selection can always terminate**: in every well-formed (= every reachable) channel-plan
+state, for join and data frames, there is a draw value on which `select_tx_channel` returns at once
+and leaves a well-formed plan — the accept set of every retry loop it may enter is non-empty (after
+the fallback for dynamic plans and fixed masks; by the cyclic-walk invariant for the join channels).
+A loop can only fail to end by the generator never offering an accepted value. -/
+theorem select_accept_nonempty (rs : RegionState) (dr : DR) (frame : FrameKind) (h : regionWF rs = true)
+    (hdr : isUplinkDatarate rs.id dr.toInt.toNat = true) :
+    ∃ v, v < 64 ∧ ∀ {σ : Type} (s : σ),
+      Tot (selectTxChannel (constGen v) rs dr frame s) (fun r => regionWF r.2.1 = true ∧ r.2.1.id = rs.id) := by
+  obtain ⟨v, hv, hret⟩ := selectTxChannel_returns rs dr frame h hdr
+  exact ⟨v, hv, fun {σ} s => (selectTxChannel_safe (constGen v) rs dr frame s h hdr).to_tot (hret s)⟩
+
 /-! ## over histories -/
 
 /-- legality of what one step handed to the radio; `m` is the state the call was made in -/
@@ -800,6 +815,7 @@ end C09
 #print axioms C09.send_legal
 #print axioms C09.join_legal
 #print axioms C09.history_tx_legal
+#print axioms C09.select_accept_nonempty
 #print axioms C09.dynJoinLoop_sound
 #print axioms C09.dynDataLoop_sound
 #print axioms C09.dynDataLoop_first
